@@ -192,6 +192,15 @@ Section Facts.
     - intros H. exists m. split; [apply optdp_counts; exact H|apply Z.eqb_refl].
   Qed.
 
+  Theorem er_okb_iff_scripts r h m :
+    er_okb ci cd cs r h m = true <->
+    exists s, transforms s r h /\ (forall s', transforms s' r h -> cost s <= cost s') /\ edits s = m.
+  Proof.
+    rewrite er_okb_iff. split.
+    - intros [s [[T Hm] E]]. exists s. auto.
+    - intros [s [T [Hm E]]]. exists s. split; [split|]; assumption.
+  Qed.
+
   Lemma opt_counts_iff r h m : In m (opt_counts r h) <-> er_spec r h m.
   Proof. apply optdp_counts. Qed.
 
